@@ -554,7 +554,6 @@ func c12OptTTL(wire []byte) uint32 {
 	return 0
 }
 
-
 // c12Unix: clients behind a unix-socket listener have no address the proxy could know: their
 // upstream queries never carry a client-subnet option, ECS on or off.
 func c12Unix(c *Ctx, b *Bed, ecs bool, mode string) {
